@@ -56,20 +56,22 @@ type tView struct {
 }
 
 type tObs struct {
-	ID      int               `json:"id"`
-	Sc      tScn              `json:"sc"`
-	Cls     map[string]string `json:"cls"`
-	Names   map[string]string `json:"names"`
-	Lead    map[string]bool   `json:"lead"` // some component of the atom's name begins with a double quote
-	Pattern string            `json:"pattern"`
-	Backend string            `json:"backend"`
-	Verdict string            `json:"verdict"` // ok | vf | other
-	Msg     string            `json:"msg"`
-	Changed []tView           `json:"changed"` // per commit: GetFilePathsChangedByCommit
-	Listed  []tView           `json:"listed"`  // per commit: GetAllFilesInTree of its tree (blob ids compared too)
-	Entries []tView           `json:"entries"` // per commit: GetEntriesInTree of its root tree (top-level names)
-	Rewrite []string          `json:"rewrite"` // per commit: WriteTree of the verbatim entries: same | differs | error
-	Lookup  []string          `json:"lookup"`  // per commit: GetPathIDInTree of every present path: ok | wrong
+	ID        int               `json:"id"`
+	Sc        tScn              `json:"sc"`
+	Cls       map[string]string `json:"cls"`
+	Names     map[string]string `json:"names"`
+	Lead      map[string]bool   `json:"lead"` // some component of the atom's name begins with a double quote
+	Pattern   string            `json:"pattern"`
+	Backend   string            `json:"backend"`
+	Verdict   string            `json:"verdict"` // ok | vf | other
+	Msg       string            `json:"msg"`
+	Mergeable string            `json:"mergeable"` // VerifyMergeableForCommit asked before the new entry exists: ok | vf | ...
+	MergeMsg  string            `json:"mergemsg"`
+	Changed   []tView           `json:"changed"` // per commit: GetFilePathsChangedByCommit
+	Listed    []tView           `json:"listed"`  // per commit: GetAllFilesInTree of its tree (blob ids compared too)
+	Entries   []tView           `json:"entries"` // per commit: GetEntriesInTree of its root tree (top-level names)
+	Rewrite   []string          `json:"rewrite"` // per commit: WriteTree of the verbatim entries: same | differs | error
+	Lookup    []string          `json:"lookup"`  // per commit: GetPathIDInTree of every present path: ok | wrong
 }
 
 var tClasses = []string{"plain", "space", "quoted", "glob"}
@@ -142,7 +144,9 @@ func runTreesScn(id int, rec tRec, seed int64, workdir string) (obs tObs, err er
 	}
 	obs.Pattern = tPattern(sc.Pat, obs.Names)
 
-	pol := vPolicy{Rules: map[string][]vVerifier{"main": {{Pr: []string{"p1", "p2"}, Thr: 1}}}, All: []string{"p1", "p2"},
+	// the branch itself is unprotected: only the file rule decides (so that the mergeability prediction, which has its own
+	// listed deviations for branch thresholds, can be asked about the file rule alone)
+	pol := vPolicy{Rules: map[string][]vVerifier{}, All: []string{"p1", "p2"},
 		Files: []vFileRule{{Pat: obs.Pattern, Pr: []string{"p1"}, Thr: 1}}}
 	r := newVRepo(seed, map[string]vPolicy{"F": pol})
 	if err := r.add(1, vEntry{K: "pol", V: "F"}); err != nil {
@@ -181,6 +185,7 @@ func runTreesScn(id int, rec tRec, seed int64, workdir string) (obs tObs, err er
 			return obs, err
 		}
 	}
+	pre := r.clone() // the repository before the new commits are recorded: what a mergeability prediction sees
 	if err := r.addRefTarget("main", "p1", commitIDs[sc.New]); err != nil {
 		return obs, err
 	}
@@ -309,6 +314,19 @@ func runTreesScn(id int, rec tRec, seed int64, workdir string) (obs tObs, err er
 		obs.Verdict = verifyErrClass(e)
 		if e != nil {
 			obs.Msg = e.Error()
+		}
+	}()
+	// the mergeability prediction for the same commits, asked before they are recorded, must agree with the file rule
+	func() {
+		defer func() {
+			if x := recover(); x != nil {
+				obs.Mergeable, obs.MergeMsg = "panic", fmt.Sprint(x)
+			}
+		}()
+		_, e := policy.NewPolicyVerifier(&hybridStorer{Handle: pre.s.Handle(), real: repo}).VerifyMergeableForCommit(context.Background(), fullRef("main"), commitIDs[sc.New])
+		obs.Mergeable = verifyErrClass(e)
+		if e != nil {
+			obs.MergeMsg = e.Error()
 		}
 	}()
 	return obs, nil
